@@ -129,7 +129,13 @@ func (in *instr) count(rule string) {
 
 func (in *instr) site(pos token.Pos) *ast.BasicLit {
 	p := in.fset.Position(pos)
-	return &ast.BasicLit{Kind: token.STRING, Value: strconv.Quote(fmt.Sprintf("%s:%d", in.rel, p.Line))}
+	fn := ""
+	for _, d := range in.file.Decls {
+		if fd, ok := d.(*ast.FuncDecl); ok && fd.Pos() <= pos && pos <= fd.End() {
+			fn = "@" + fd.Name.Name
+		}
+	}
+	return &ast.BasicLit{Kind: token.STRING, Value: strconv.Quote(fmt.Sprintf("%s:%d%s", in.rel, p.Line, fn))}
 }
 
 func (in *instr) fail(pos token.Pos, format string, a ...interface{}) {
